@@ -172,7 +172,7 @@ def generate_scenario(
     events.append(generate_delay("init", initial_delay))
 
     for i in range(evts_count):
-        removed_agents = random.sample(agents, actions_count)
+        removed_agents = random.sample(sorted(agents), actions_count)
         agents.difference_update(removed_agents)
         actions = [EventAction("remove_agent", agent=agent) for agent in removed_agents]
 
